@@ -26,7 +26,7 @@ CONTRACTS = ["bytes"]
 
 
 def plan(tier, seed):
-    return plan_items(tier, seed, n_gen_quick=10, n_gen_thorough=300, n_quick=120, n_thorough=800)
+    return plan_items(tier, seed, n_gen_quick=10, n_gen_thorough=300, n_quick=120, n_thorough=800) + [{"kind": "w0"}]
 
 
 def _observe(m):
@@ -113,8 +113,16 @@ def check_case(b, bp, ref, mi, tree, res: Result, w, rng):
 
 
 def run_shard(shard):
+    if shard.get("kind") == "w0":
+        from ..w0 import run_w0
+
+        return run_w0(PROP, CONTRACTS)
     return run_value_shard(shard, PROP, check_case, CONTRACTS)
 
 
 def replay(w):
+    if w.get("kind") == "w0":
+        from ..w0 import run_w0
+
+        return run_w0(PROP, CONTRACTS).violations
     return replay_value(w, check_case, PROP, CONTRACTS)
